@@ -84,6 +84,13 @@ def _work(args):
     byte_inputs.append(("all-high-bytes", lead + bytes(range(0x80, 0x100)) + b"\n"))
     for b in rng.sample(range(0x80, 0x100), 12) + [0x81, 0x8d, 0x8f, 0x90, 0x9d, 0xa0, 0xff]:
         byte_inputs.append(("single-high-byte", lead + b"x" + bytes([b]) + b"y\n"))
+    # byte order marks followed by data that is not well-formed in the encoding the mark announces
+    sample = "x = 1\n" if lang == "Python" else "int x;\n"
+    byte_inputs += [("bom-utf16", b"\xff\xfe" + sample.encode("utf-16-le")), ("bom-utf16", b"\xfe\xff" + sample.encode("utf-16-be")),
+                    ("bom-utf16-truncated", b"\xff\xfe" + sample.encode("utf-16-le")[:-1]),
+                    ("bom-utf16-surrogate", b"\xff\xfe\x00\xd8x\x00\n\x00"), ("bom-utf16-odd", b"\xfe\xff\x80\x81\x82"),
+                    ("bom-utf8", b"\xef\xbb\xbf" + sample.encode()), ("bom-utf8-truncated", b"\xef\xbb"),
+                    ("bom-utf32", b"\xff\xfe\x00\x00" + sample.encode("utf-32-le")[:-3]), ("nul-bytes", sample.encode() + b"\x00\x00\x00")]
     root = tempfile.mkdtemp(prefix=f"c03_{lang}_", dir=tmp)
     other = tempfile.mkdtemp(prefix="c03_other_", dir=tmp)
     sub = os.path.join(root, "pkg")
